@@ -437,3 +437,33 @@ package reader
 //@   ensures [a-barrier-closed-by-stop-records-no-drop] len(events) == old(len(events)) ==> (forall id int64 :: {umHas(deref(r).droppedPartitions, id)} umHas(deref(r).droppedPartitions, id) == old(umHas(deref(r).droppedPartitions, id)))
 //@   ensures [earlier-requests-are-untouched] forall i int :: {events[i]} 0 <= i && i < old(len(events)) ==> events[i] == old(events[i])
 //@   loop 1 invariant len(events) == old(len(events)) + 1 && events[old(len(events))] == before(events[old(len(events))]) && umHas(deref(r).droppedPartitions, old(deref(partitionInfo).PartitionID)) && (forall i int :: {events[i]} 0 <= i && i < old(len(events)) ==> events[i] == old(events[i]))
+
+// ---- C03: a collection that joins a downstream channel raises the channel clock to its own resume point ----------------
+// (the checkpoint it is resumed from and its start time: nothing it emits may be stamped below them)
+//@ func (*replicateChannelHandler).collectionSourceSeekPosition
+//@   props C03
+//@   requires r != nil
+//@   assumes tsWf(as(theTSM(), "*tsManager"))
+//@   ensures [the-clock-covers-the-resume-position] sourceSeekPosition != nil ==> hpCts(r) >= old(sourceSeekPosition.Timestamp) || old(sourceSeekPosition.Timestamp) == 18446744073709551615
+//@   ensures [the-clock-covers-the-start-time] sourceSeekPosition != nil && startTs != 18446744073709551615 ==> hpCts(r) >= startTs
+//@   ensures [the-clock-never-goes-back] hpCts(r) >= old(hpCts(r))
+//@   ensures [the-last-tick-is-untouched] hpLts(r) == old(hpLts(r))
+//@ func (*replicateChannelHandler).AddCollection
+//@   props C03
+//@   requires r != nil && sourceInfo != nil && targetInfo != nil
+//@   assumes tsWf(as(theTSM(), "*tsManager"))
+//@   private model.SourceCollectionInfo.SeekPosition msgpb.MsgPosition.Timestamp tsInfo.* tsManager.* umaps(string;*tsInfo) replicateChannelHandler.replicateID replicateChannelHandler.targetPChannel
+//@   ensures [a-joining-collection-raises-the-clock-to-its-own-checkpoint] after(collectionSourceSeekPosition, sourceInfo.SeekPosition == nil || sourceInfo.SeekPosition.Timestamp == 18446744073709551615 || hpCts(r) >= sourceInfo.SeekPosition.Timestamp)
+
+// ---- C01 / C04: per-shard state is not shared between the shards of a collection -----------------------------------
+// The record a shard handler keeps for a collection has its own table of dropped partitions, its own table of partition
+// barriers: what one shard has seen (a partition's drop message) must not make
+// another shard, which is still behind, filter messages or skip its signal.  Stated as a precondition of the function
+// every shard is started through; the callback of StartReadCollection builds these records.
+//@ trusted func (*replicateChannelManager).startReadChannel
+//@   requires [every-shard-gets-its-own-dropped-partition-table] madeHere(targetInfo.DroppedPartition)
+//@   requires [every-shard-gets-its-own-partition-barrier-table] madeHere(targetInfo.PartitionBarrierChan)
+//@   requires [the-shard-record-carries-the-downstream-collection-and-channel] targetInfo != nil && sourceInfo != nil
+//@ func (*replicateChannelManager).StartReadCollection$6
+//@   props C01 C04 C02
+//@   requires deref(r) != nil && deref(info) != nil && deref(info).Schema != nil && deref(targetInfo) != nil && deref(barrier) != nil
